@@ -597,7 +597,7 @@ func main() {
 		}
 		return
 	}
-	nwork, nsteps, perWork := 10, 120, 260
+	nwork, nsteps, perWork := 30, 120, 300
 	if a.Thorough() {
 		nwork, nsteps, perWork = 200, 300, 3000
 	}
